@@ -81,8 +81,10 @@ TEMPLATES = dict([
     _t("sizeof_nest", "a.c", lambda d, U: list(fn(["\ta = " + "sizeof(" * d + "a" + ")" * d + ";\n"]))),
     _t("attribute_run", "a.c", lambda d, U: list("int\tfn(void)" + " __attribute__((unused))" * d + ";\n")),
 ])
-DS = (1, 2, 3, 4)
+DS = (4, 8, 12, 16)
 BIG = (1500, 3000)
+# constructs whose TEXT grows quadratically with d (one more indentation level per repetition): smaller sizes
+BIG_OF = {"if_nest": (200,), "brace_blocks": (200,), "struct_nest": (200,), "pp_ifdef_nest": (300,), "comment_run": (300,)}
 
 
 def chunks(tier):
@@ -143,7 +145,8 @@ def run_chunk(chunk, ctx):
                               dict(t=tname, unit=u, d=d))
                 cur["viol"] = True
                 return dict(t=tname, depths=depths)
-        grows = all(b - a >= 1 for a, b in zip(depths, depths[1:]))
+        # slope >= 1 frame per repetition on the last two steps (small sizes are hidden behind the constant base depth)
+        grows = all(b - a >= (DS[k + 2] - DS[k + 1]) for k, (a, b) in enumerate(zip(depths[1:], depths[2:])))
         u = chr(ex.model().eval(U.z, model_completion=True).as_long()) if U is not None else None
         cur["case"] = dict(t=tname, unit=u, d=0, grows=grows)
         col.notes[f"depth:{tname}"] = f"{depths} deepest={deepest} grows={grows}"
@@ -181,7 +184,7 @@ def replay(case):
     if case.get("d"):
         sizes = (case["d"],)
     else:
-        sizes = BIG
+        sizes = BIG_OF.get(tname, BIG)
     slow = False
     for d in sizes:
         if slow:
